@@ -17,7 +17,7 @@ from verifsim import core, harness
 PROP = "C07"
 
 CTORS = ["Field", "from_raw", "makeField", "Field_of_AnyArray", "MultiField.from_raw", "MultiField.from_dict",
-         "makeField_dict"]
+         "makeField_dict", "full", "scalar", "from_random", "arith", "MultiField.full"]
 SRC_KINDS = ["fresh", "view_of_base", "noncontig", "zero_d", "complex", "fortran", "subclass", "memmap",
              "recarray_view", "masked"]
 DERIVES = ["cast_domain", "real", "imag", "conjugate", "neg", "at", "extract", "getitem_key"]
@@ -107,6 +107,24 @@ def domain_for(shape):
 def step_construct(w, ctor, kind, seed, two_d, prewrap=False):
     import nifty.cl as ift
     shape = (2, 3) if two_d else (4,)
+    if ctor in ("full", "scalar", "from_random", "arith", "MultiField.full"):
+        # constructors that own their storage: only handles obtained from the field can be attacked
+        dom = domain_for(shape)
+        if ctor == "full":
+            f = ift.Field.full(dom, 1.5 + seed)
+        elif ctor == "scalar":
+            f = ift.Field.scalar(1.5 + seed)
+        elif ctor == "from_random":
+            with ift.random.Context(seed):
+                f = ift.from_random(dom)
+        elif ctor == "arith":
+            g = ift.makeField(dom, np.random.default_rng(seed).normal(size=shape))
+            f = g * 2.0 + g
+        else:
+            f = ift.full(ift.makeDomain({"a": dom, "b": domain_for((4,))}), 0.5 + seed)
+        w.fields.append({"f": f, "snap": read(f), "ctor": ctor, "label": f"{ctor}()"})
+        w.stats["fields"] += 1
+        return
     if ctor.startswith("MultiField") or ctor == "makeField_dict":
         arrs, doms = {}, {}
         for i, k in enumerate(("a", "b")):
